@@ -1556,13 +1556,16 @@ func replayCutoff(db *tsdb.DB) int64 {
 // (known finding TagMixedBlock): a restart will drop them. It returns their number and tags them in m.
 func tagAtRisk(db *tsdb.DB, m *tsdbmodel.Model) int {
 	B := int64(math.MinInt64)
+	level := 0
 	for _, b := range db.Blocks() {
 		c := b.Meta().Compaction
 		if !c.FromOutOfOrder() && !c.FromStaleSeries() && !c.FromSelectedSeries() && b.Meta().MaxTime > B {
 			B = b.Meta().MaxTime
+			level = c.Level
 		}
 	}
-	if B == math.MinInt64 {
+	if B == math.MinInt64 || level < 2 {
+		// the cut-off comes from a block written straight from the head: no merged out-of-order block involved
 		return 0
 	}
 	inBlocks := map[string]map[int64]bool{}
